@@ -59,8 +59,12 @@ def apply_op(lang, text, op):
         if k == "BreakLine":
             return text[:s] + "\\\n" + text[s:]
         if k == "OddSpace":
-            odd = ["\x0c", "\x0b", "\r", "\u2028", "\x85", "\x1c", "\u2029"]
-            return text[:s] + odd[a % len(odd)] + text[s:]
+            # blanks that are not ASCII blanks, three ways: in front of the token, as a line of its own above the token's line,
+            # and behind the token (trailing, or the last thing of the text)
+            odd = ["\x0c", "\x0b", "\r", "\u2028", "\x85", "\x1c", "\u2029", "\u00a0", "\u3000"]
+            own = ["\u00a0", "\u3000", "\u2028", "\x85", "\x1c", "\x0c", "\u2003", "\x1f"]
+            ls = text.rfind("\n", 0, s) + 1
+            return [text[:s] + odd[a % len(odd)] + text[s:], text[:ls] + own[a % len(own)] + "\n" + text[ls:], text[:e] + own[(a // 2) % len(own)] + text[e:]]
         if k == "DelToken":
             return text[:s] + text[e:]
         if k == "DupToken":
